@@ -663,11 +663,14 @@ func (f *Frame) execBlock(b *ssa.BasicBlock, st *State, in map[*ssa.BasicBlock][
 			f.flow(b, b.Succs[0], st, in)
 			return
 		case *ssa.Return:
-			f.atPoint("return", st, b, idx)
 			var vals []Val
 			for _, r := range ins.Results {
 				vals = append(vals, f.val(r, st))
 			}
+			// the values about to be returned are visible at "return" anchors as result / ret<k>
+			f.pendingRet = vals
+			f.atPoint("return", st, b, idx)
+			f.pendingRet = nil
 			rst := st
 			f.runDefers(rst)
 			if f.top {
